@@ -41,7 +41,7 @@ pub fn large_vol(geom_idx: usize, l: LargeCfg) -> VolCfg {
         pad_sectors: 8,
         status0: 0,
         access_date: false,
-        gen: if by_gen { Some(GenGeom { rsvd: 32, fatsz: if geom_idx % GEOMS.len() == 4 { 262_144 } else { 0 }, ..Default::default() }) } else { None },
+        gen: if by_gen { Some(GenGeom { rsvd: 32, fatsz: if geom_idx % GEOMS.len() == 4 { 262_144 } else { 0 }, root_from_end: l.root_at_end, ..Default::default() }) } else { None },
         large: Some(l),
         short_io: 0,
         populate: None,
@@ -51,17 +51,21 @@ pub fn large_vol(geom_idx: usize, l: LargeCfg) -> VolCfg {
 pub fn large_cfgs() -> Vec<LargeCfg> {
     let mut v = Vec::new();
     for hint in [Some(0), Some(-1), Some(1), Some(-40), None] {
-        v.push(LargeCfg { hint_rel: hint, tail_window: 0, tail_free: vec![], head_used: 0, alias_bad: false });
-        v.push(LargeCfg { hint_rel: hint, tail_window: 64, tail_free: vec![0], head_used: 9, alias_bad: false });
-        v.push(LargeCfg { hint_rel: hint, tail_window: 64, tail_free: vec![], head_used: 9, alias_bad: false });
-        v.push(LargeCfg { hint_rel: hint, tail_window: 3000, tail_free: vec![0, 1, 2, 50], head_used: 0, alias_bad: false });
-        v.push(LargeCfg { hint_rel: hint, tail_window: 48, tail_free: vec![1, 3], head_used: 2, alias_bad: true });
+        v.push(LargeCfg { hint_rel: hint, tail_window: 0, tail_free: vec![], head_used: 0, alias_bad: false, root_at_end: 0 });
+        v.push(LargeCfg { hint_rel: hint, tail_window: 64, tail_free: vec![0], head_used: 9, alias_bad: false, root_at_end: 0 });
+        v.push(LargeCfg { hint_rel: hint, tail_window: 64, tail_free: vec![], head_used: 9, alias_bad: false, root_at_end: 0 });
+        v.push(LargeCfg { hint_rel: hint, tail_window: 3000, tail_free: vec![0, 1, 2, 50], head_used: 0, alias_bad: false, root_at_end: 0 });
+        v.push(LargeCfg { hint_rel: hint, tail_window: 48, tail_free: vec![1, 3], head_used: 2, alias_bad: true, root_at_end: 0 });
+    }
+    // the root directory itself in the last / second-to-last cluster (beyond 4 GiB and 1 TiB on these volumes)
+    for (k, hint) in [(1u8, Some(-5i32)), (2, Some(0)), (1, None), (2, Some(-1))] {
+        v.push(LargeCfg { hint_rel: hint, tail_window: 0, tail_free: vec![], head_used: 0, alias_bad: false, root_at_end: k });
     }
     // hints far enough before the end that a scan in blocks cannot reach the end in one step, with everything from the
     // hint to the last cluster in use (or only the very last one free): the scan has to run off the end and wrap
     for (h, w) in [(-127i32, 200u32), (-128, 200), (-129, 200), (-200, 300), (-257, 300), (-1000, 1100)] {
-        v.push(LargeCfg { hint_rel: Some(h), tail_window: w, tail_free: vec![], head_used: 4, alias_bad: false });
-        v.push(LargeCfg { hint_rel: Some(h), tail_window: w, tail_free: vec![0], head_used: 0, alias_bad: false });
+        v.push(LargeCfg { hint_rel: Some(h), tail_window: w, tail_free: vec![], head_used: 4, alias_bad: false, root_at_end: 0 });
+        v.push(LargeCfg { hint_rel: Some(h), tail_window: w, tail_free: vec![0], head_used: 0, alias_bad: false, root_at_end: 0 });
     }
     v
 }
